@@ -15,8 +15,8 @@ import (
 	"math/rand"
 	"net"
 	"os"
-	"path/filepath"
 	"os/exec"
+	"path/filepath"
 	"strings"
 	"syscall"
 	"time"
